@@ -1,11 +1,12 @@
 """C02 - an instance that fits an eligible up server is not left pending."""
 from .. import env
 from ..sched import celldrv, engine, probe
+from ..sched import engine as cengine
 from ._sched_common import LEVEL, ASSUMPTIONS as _A
 
 ASSUMPTIONS = _A + ['probe cycles run in forked children of the quiescent cell (parent state serves many probes)',
                     'the probe goes into a fresh allocation directly under its partition root, so it re-orders no other pair of instances']
-RULE = ('a generated history (as C01) is run to a quiescent state (a cycle that changes nothing, <= 6 attempts, else '
+RULE = ('(every 4th case runs the same experiment at Master level: a real Master on the in-memory ZooKeeper is driven to a quiescent state, the probe is submitted with masterapi.create_apps into the default allocation of a fresh proid and one reschedule() runs in a forked child) a generated history (as C01) is run to a quiescent state (a cycle that changes nothing, <= 6 attempts, else '
         'discarded and counted); then 8 probes per state (demand = free vector of a random server, +-1 in one '
         'dimension, small, or clone-shaped after a pending instance; rank before/inside/after the queue; traits, '
         'lease, affinity limits, identity group variants) are each submitted in a forked child and one cycle is run. '
@@ -14,12 +15,116 @@ RULE = ('a generated history (as C01) is run to a quiescent state (a cycle that 
         'says it fits => the probe must be placed. Non-trivial: the scan found a fit and (a server is not up, or a '
         'server was removed/reloaded earlier in the history, or the feasibility tracker was consulted).')
 BUDGET = {'quick': (120, 30.0), 'thorough': (2500, 280.0)}
-REQUIRED_REACH = {'*': ['probe_fits', 'probe_fits_placed', 'probe_tracker_consulted', 'quiescent_states']}
+REQUIRED_REACH = {'*': ['probe_fits', 'probe_fits_placed', 'probe_tracker_consulted', 'quiescent_states', 'quiescent_master_states', 'master_probe_fits']}
 PROBES = 8
+
+
+def master_case(ctx, idx, rng):
+    """Master level: quiescent real Master on the fake ZooKeeper, probes submitted with masterapi.create_apps."""
+    from ..master import crash, drv as mdrv, engine as mengine
+    h = mengine.MHistory(ctx, rng, mdrv.MProfile(p_restart=0.3), [])
+    try:
+        h.run()
+        if h.aborted:
+            ctx.count('history_aborted')
+            return
+        d = h.d
+        quiet = False
+        for _ in range(6):
+            d.settle_delivery()
+            d.sync_H()
+            d.last_placement = None
+            d.master.reschedule()
+            d.master.check_placement_integrity()
+            pl = d.last_placement or []
+            if all(p[1] == p[3] and p[2] == p[4] for p in pl) and not d.deliver():
+                quiet = True
+                break
+        if not quiet:
+            ctx.count('not_quiescent_discarded')
+            return
+        ctx.count('quiescent_states')
+        ctx.count('quiescent_master_states')
+        d.settle_delivery()
+        d.sync_H()
+        H = d.H
+        for k in range(PROBES):
+            prng = ctx.case_rng(idx, 'mprobe%d' % k)
+            d.rng = prng
+            man, demand = d.gen_manifest()
+            man.pop('identity_group', None)
+            man.pop('schedule_once', None)
+            man['priority'] = prng.choice([1, 10, 50, 100])
+            cands = [s for s in sorted(H.servers) if H.servers[s]['label'] == '_default']
+            mode = prng.choice(['free', 'free', 'free-1', 'free+1', 'asis'])
+            if mode.startswith('free') and cands:
+                s = prng.choice(cands)
+                srvobj = d.master.servers.get(s)
+                if srvobj is not None:
+                    free = [int(x) for x in srvobj.free_capacity]
+                    demand = [max(0, x) for x in free]
+                    i = prng.randrange(3)
+                    if mode == 'free-1':
+                        demand[i] = max(0, demand[i] - 1)
+                    elif mode == 'free+1':
+                        demand[i] += 1
+                    man.update(memory='%dM' % demand[0], cpu='%d%%' % demand[1], disk='%dM' % demand[2])
+            lease = mdrv.own_secs(man.get('lease', '0s'))
+            spec = dict(name='probe', demand=demand, traits=mdrv.trait_bits(man.get('traits')), lease=lease,
+                        affinity=man['affinity'], limits=dict(man.get('affinity_limits', {})), group=None,
+                        alloc=('_default', ('_default', 'probe')))
+            # reboot time unknown for a server (no published record) -> do not claim a fit for leased probes there
+            if lease:
+                for s in H.servers.values():
+                    if not s['valid_until']:
+                        s['valid_until'] = 0
+            h.drv = d            # leaf_scan reads h.drv.H / h.drv.cell
+            d.cell = d.master.cell
+            fit, _ident = probe.leaf_scan(h, spec, h.clock.peek())
+
+            def child():
+                d.srv.before_write = None
+                d.cutter = None
+                ids = d.api.create_apps(d.admin, 'probe.p', man, 1)
+                d.Z['apps'][ids[0]] = dict(man=dict(man), demand=demand)
+                d.settle_delivery()
+                cengine.MON.reset_cycle()
+                d.master.reschedule()
+                app = d.master.cell.apps.get(ids[0])
+                return dict(server=app.server if app else None, known=app is not None,
+                            rejected=ids[0] in cengine.MON.tracker_rejected, consulted=cengine.MON.tracker_consulted)
+            res = crash.in_child(child)
+            if res is None or 'harness_error' in res:
+                ctx.count('probe_child_died')
+                if res:
+                    ctx.notes.append(res['harness_error'] + res.get('tb', ''))
+                continue
+            desc = dict(history=idx, level='master', probe=dict(manifest=man, demand=demand), fits_on=fit, result=res)
+            if res['consulted']:
+                ctx.count('probe_tracker_consulted')
+            if fit is not None:
+                ctx.count('probe_fits')
+                ctx.count('master_probe_fits')
+                if res['server'] is not None:
+                    ctx.count('probe_fits_placed')
+                else:
+                    mech = 'fits-but-skipped-by-feasibility-tracker' if res['rejected'] else 'fits-but-left-pending'
+                    ctx.violation(mech + ':master', 'probe %s fits on %s but was left pending' % (desc['probe'], fit),
+                                  witness=desc, case=dict(ops=d.ops[-40:], probe=desc))
+            else:
+                ctx.count('probe_no_fit')
+            churn = any(op[0] in ('server_delete', 'server_cap', 'server_attrs', 'restart', 'cell_event', 'presence_up') for op in d.ops)
+            ctx.done(case_desc=(idx, k, desc['probe']), nontrivial=bool(fit is not None and churn), sample=None)
+    finally:
+        env.VClock.uninstall()
+    h.absorb_counters()
 
 
 def run(ctx):
     for idx, rng in ctx.cases():
+        if idx % 4 == 3:
+            master_case(ctx, idx, rng)
+            continue
         pf = celldrv.Profile()
         pf.pressure = (0.6, 1.6)
         if rng.random() < 0.3:
